@@ -149,7 +149,39 @@ WELL = ['a \\verb|$| b', 'x \\verb|a_b|', 'end with verb \\verb|q|', '\\verb!{!'
         'A \\LTinput{empty.tex} B $x$ C', 'A\\footnote{b} \\LTinput{defs.tex} C']
 
 
+def reuse_stream(res):
+    """Python interface: one Parameters object (and one Parser object) used
+    for several documents -- every call that puts a mark into the text prints
+    its diagnostic, also when the same faulty text is parsed again"""
+    import contextlib, io
+    from yalafi import parameters, parser, utils
+    for latex in ('Alpha \\verb|xyz\nBeta gamma', 'Alpha\n\\begin{verbatim}\nBeta gamma',
+                  'Alpha $x + y Beta.\n\nDelta.', 'Alpha \\footnote{Beta gamma',
+                  'Alpha beta \\verb', "Alpha \\'1 Beta"):
+        parms = parameters.Parameters('en')
+        p = None
+        for k in range(3):
+            if k != 1:
+                p = parser.Parser(parms)        # call 1 re-uses the parser of call 0
+            err = io.StringIO()
+            try:
+                with contextlib.redirect_stderr(err):
+                    txt = utils.get_txt_pos(p.parse(latex))[0]
+            except BaseException as e:
+                res.failures.append(('c08-reuse:%r:%d' % (latex, k), {'latex': latex, 'call': k},
+                                     'exception %r' % e))
+                continue
+            res.count('reuse', (latex, k), nontrivial=k > 0)
+            mark, diag = MARK in txt, 'LaTeX error' in err.getvalue()
+            if mark != diag:
+                res.failures.append(('c08-reuse:%r:%d' % (latex, k), {'latex': latex, 'call': k},
+                                     'call %d on one Parameters object: %s'
+                                     % (k + 1, 'mark without diagnostic' if mark
+                                        else 'diagnostic without mark')))
+
+
 def run(tier, seed, build, res):
+    reuse_stream(res)
     rng = random.Random(seed)
     res.rule = ('well-formed documents of the grammar (silent, no mark) and %d '
                 'fault templates appended to random well-formed prefixes '
